@@ -9,7 +9,7 @@ cd /verif
 props="$@"; [ -z "$props" ] && props="C01 C02 C03 C04 C05 C06 C07 C08 C09 C10 C11 C12 C13 C14 C15 C16 C17 C18 C19 C20"
 for p in $props; do
   out=$(VERIF_REPO=$tmp VERIF_EVIDENCE_DIR=$tmp/ev /venv/bin/python sa/check.py $p 2>&1) && e=0 || e=$?
-  if [ $e -ne 0 ]; then echo "== $p exit=$e"; echo "$out" | grep -E "refuted|ANALYSIS" | cut -c1-420 | head -6; fi
+  if [ $e -ne 0 ]; then echo "== $p exit=$e"; echo "$out" | grep -E "refuted|ANALYSIS" | cut -c1-420 | head -14; fi
 done
 echo "(done $patch)"
 rm -rf $tmp
